@@ -17,6 +17,9 @@ import (
 
 func VH_C01_E1_EngineFinalizesOnlyOnCertificate() {
 	verifrt.Summarize("ByzantineThresholds")
+	// stated assumption (as in the state-machine kit): the 100 ms blocked-send guards of
+	// handleProposalViewUpdate never fire (the consensus manager takes every request in time)
+	verifrt.Summarize("SMQuietSendGuardTimers")
 	const n = 3
 	keys := vkit.OkKeys(n)
 	pows := vkit.Powers("power", n)
